@@ -12,7 +12,14 @@ deriving DecidableEq, Repr
 inductive Atom where
   | groupEnter | dispEnter | stateEnter | metricsEnter
   | dispExit | groupExit | metricsExit | stateExit
+  | groupExitCaught     -- the group exit called from an `except … as exc:` handler with `(type(exc), exc, …)`
+  | rebindReason        -- `exc_type, exc_val, exc_tb = type(exc), exc, exc.__traceback__` inside a handler
 deriving DecidableEq, Repr
+
+/-- `except Exception` does not catch a cancellation (nor any other non-`Exception` error) -/
+def Exc.isException : Exc → Bool
+  | .cancel => false
+  | .user _ => true
 
 structure Ctx where
   state : Nat
@@ -26,13 +33,17 @@ structure M where
   tok : Ctx          -- old values captured by the tokens
   new : Ctx          -- values this block installs
   log : List Atom := []
+  reason : Option Exc := none              -- the `exc_val` variable of `__aexit__` (the exit reason handed on)
+  caught : Option Exc := none              -- the exception bound by the innermost `except … as exc`
+  dispSaw : Option (Option Exc) := none    -- exit reason the disposables' `__aexit__` received
+  groupSaw : Option (Option Exc) := none   -- exit reason the task group's `__aexit__` received
 deriving Repr, DecidableEq
 
 inductive Proc where
   | atom (a : Atom)
   | seq (p q : Proc)
   | tryFinally (p q : Proc)
-  | tryExcept (p h : Proc)       -- `except BaseException: <h>; raise`
+  | tryExcept (all : Bool) (p h : Proc)   -- `except BaseException` (all) / `except Exception` (¬all) `as exc: <h>; raise`
   | skip
 deriving Repr
 
@@ -46,11 +57,13 @@ def runAtom (φ : Faults) (a : Atom) (m : M) : M × Option Exc :=
   | .groupEnter => ({ m with tok := { m.tok with group := m.ctx.group }, ctx := { m.ctx with group := m.new.group } }, none)
   | .stateEnter => ({ m with tok := { m.tok with state := m.ctx.state }, ctx := { m.ctx with state := m.new.state } }, none)
   | .metricsEnter => ({ m with tok := { m.tok with metrics := m.ctx.metrics }, ctx := { m.ctx with metrics := m.new.metrics } }, none)
-  | .groupExit => ({ m with ctx := { m.ctx with group := m.tok.group } }, φ .groupExit)   -- token reset precedes the await
+  | .groupExit => ({ m with ctx := { m.ctx with group := m.tok.group }, groupSaw := some m.reason }, φ .groupExit)   -- token reset precedes the await
+  | .groupExitCaught => ({ m with ctx := { m.ctx with group := m.tok.group }, groupSaw := some m.caught }, φ .groupExit)
+  | .rebindReason => ({ m with reason := m.caught }, none)
   | .stateExit => ({ m with ctx := { m.ctx with state := m.tok.state } }, none)
   | .metricsExit => ({ m with ctx := { m.ctx with metrics := m.tok.metrics } }, none)
   | .dispEnter => (m, φ .dispEnter)
-  | .dispExit => (m, φ .dispExit)
+  | .dispExit => ({ m with dispSaw := some m.reason }, φ .dispExit)
 
 def run (φ : Faults) : Proc → M → M × Option Exc
   | .skip, m => (m, none)
@@ -65,13 +78,15 @@ def run (φ : Faults) : Proc → M → M × Option Exc
       match run φ q m1 with
       | (m2, some e2) => (m2, some e2)      -- exception in `finally` replaces the one in flight
       | (m2, none) => (m2, e1)
-  | .tryExcept p h, m =>
+  | .tryExcept all p h, m =>
     match run φ p m with
     | (m1, none) => (m1, none)
     | (m1, some e1) =>
-      match run φ h m1 with
-      | (m2, some e2) => (m2, some e2)
-      | (m2, none) => (m2, some e1)          -- bare `raise`
+      if all || e1.isException then
+        match run φ h { m1 with caught := some e1 } with
+        | (m2, some e2) => (m2, some e2)
+        | (m2, none) => (m2, some e1)          -- bare `raise`
+      else (m1, some e1)                        -- not caught by `except Exception`
 
 /-- `with cm: body` – the body may end with any exception and may leave the context variables in an arbitrary state
 (`scramble`; nested blocks are not trusted here).  `__exit__` is not called when `__enter__` raised. -/
@@ -79,7 +94,7 @@ def block (enter exit : Proc) (φ : Faults) (body : Option Exc) (scramble : Ctx 
   match run φ enter m with
   | (m1, some e) => (m1, some e)
   | (m1, none) =>
-    let m2 := { m1 with ctx := scramble m1.ctx }
+    let m2 := { m1 with ctx := scramble m1.ctx, reason := body }   -- `__aexit__(exc_type, exc_val, exc_tb)`
     match run φ exit m2 with
     | (m3, some e) => (m3, some e)
     | (m3, none) => (m3, body)
@@ -91,13 +106,13 @@ disposables) fails, the group is exited again and the pre-built metrics node is 
 failure is re-raised. -/
 def aenter : Proc :=
   seq (atom groupEnter)
-    (seq (tryExcept (atom dispEnter)
-                    (tryFinally (atom groupExit) (seq (atom metricsEnter) (atom metricsExit))))
+    (seq (tryExcept true (atom dispEnter)
+                    (tryFinally (atom groupExitCaught) (seq (atom metricsEnter) (atom metricsExit))))
          (seq (atom stateEnter) (atom metricsEnter)))
 
 /-- `ScopeContext.__aexit__` (repaired shape): every later cleanup step runs under a `finally`. -/
 def aexit : Proc :=
-  tryFinally (tryExcept (atom dispExit) skip)
+  tryFinally (tryExcept true (atom dispExit) (atom rebindReason))
     (tryFinally (atom groupExit) (seq (atom metricsExit) (atom stateExit)))
 
 /-- `ScopeContext.__enter__/__exit__` (synchronous scope: no group, no disposables) -/
